@@ -32,7 +32,7 @@ CLAIMS = {
         tech="deductive verification of error and duplicate clauses (WP VCs over go/ssa, SMT) with third-party code abstracted", ref="4 C14"),
     "C11": dict(
         text="PARTIAL (kernels and error behaviour). Proved: convertHorizontalIDToQuadkey returns the bit interleave of (x, y) for every zoom 1..31 (closed-form specification, zoom x loop-index case split); convertQuadkeyToHorizontalID de-interleaves every key 0 <= q < 4^zoom for every zoom and every digit count, including keys with leading zero digits (loop invariant over opaque bit symbols, with the digit/bit lemmas proved separately and instantiated); the list-level conversions reject zooms outside 1..31 / 0..35, malformed IDs and inverted height ranges, do not panic, the keys-to-IDs direction returns a duplicate-free list of five-field IDs and accepts every valid request; in the IDs-to-keys directions no (quadkey, vertical index / altitude key) pair is reported twice within or across the returned groups (loop invariants over the de-duplication map), and every group carries the request's output zooms and height-range / altitude-base parameters unchanged.",
-        note=TRUST + "NOT decided: that the two closed-form specifications (interleave / de-interleave) are mutually inverse - a mathematical fact about the specifications, stated as a lemma but not finished by the solvers for the larger zooms and therefore removed; the list-level round trip and the agreement with the zoom change across different output zooms (the pairs themselves are not characterised, only their distinctness). strconv.FormatInt(q, 4) followed by strings.Split(., \"\") is modelled as the base-4 digit sequence of q (trusted model).",
+        note=TRUST + "NOT decided: that the two closed-form specifications (interleave / de-interleave) are mutually inverse - a mathematical fact about the specifications, stated as a lemma but not finished by the solvers for the larger zooms and therefore removed; the list-level round trip and the agreement with the zoom change across different output zooms (the pairs themselves are not characterised, only their distinctness: a change that drops pairs is not detected, seed C11-3). strconv.FormatInt(q, 4) followed by strings.Split(., \"\") is modelled as the base-4 digit sequence of q (trusted model).",
         tech="deductive verification: WP VCs over go/ssa, exhaustive zoom / digit-count / loop-index case split, opaque bit symbols with instantiated lemmas, SMT (linear integer arithmetic)", ref="4 C11"),
     "C02": dict(category="other",
         text="PARTIAL, over ideal reals. Proved for every horizontal zoom 0..35 (and 36x36 zoom pairs at the top level): the vertex query returns eight points in the documented order NW, NE, SE, SW (bottom) then top, with longitudes 360*x/2^h-180 and 360*(x+1)/2^h-180, latitudes atan(sinh(pi*(1-2y/2^h))) and the same for y+1 (each cut toward zero at 1e-10 degrees by the point constructor), altitudes f*2^(25-v) and (f+1)*2^(25-v); the centre query returns the midpoint on every axis; a valid extended ID is parsed and dispatched to exactly these (option 0 = vertex, 1 = centre); unknown options, malformed IDs and zooms outside 0..35 are errors and nothing panics (C15 part, IEEE semantics).",
